@@ -118,10 +118,8 @@ static void check04(const std::vector<WOp> &ops, Src &s, uint8_t fill) {
 
 // ---------------------------------------------------------------------------
 // C05
-static void check05(Value &tree, bool arr, unsigned depth) {
+static void check05(Value &tree, bool arr, unsigned depth, const std::vector<WOp> &ops) {
     Stats &st = stats();
-    std::vector<WOp> ops;
-    ref::flatten(tree, ops);
     Bytes enc = ref::encode(tree);
     Payloads pl(ops);
     WResult r = run_writer(ops, pl, enc.size(), 0xC3);
@@ -298,7 +296,7 @@ static void run_case(Src &s) {
     Case c = decode(s);
     Stats &st = stats();
     st.label(c.wellformed ? "sequence:well-formed" : "sequence:arbitrary");
-    if (is05()) check05(c.tree, c.arr, c.depth);
+    if (is05()) check05(c.tree, c.arr, c.depth, c.ops);
     else if (is09()) check09(c.ops, s);
     else check04(c.ops, s, c.fill);
 }
